@@ -13,6 +13,8 @@ SPEC = {
          'sinks': {'C08_mm': 'mm_judge'}, 'n': {'quick': 300, 'thorough': 12000}},
         {'pkg': 'execute', 'src': 'harness/execute/c08_test.go', 'test': 'TestVerif_C08_select', 'fakes': True,
          'sinks': {'C08_sel': 'sel_judge'}, 'n': {'quick': 200, 'thorough': 8000}},
+        {'pkg': 'execute', 'src': 'harness/execute/c08_test.go', 'test': 'TestVerif_C08_outcome', 'fakes': True,
+         'sinks': {'C08_out': 'out_judge'}, 'n': {'quick': 150, 'thorough': 6000}},
     ],
     'known': {'1': 'F14'},
     'rule': 'add: report.NewBuilder(mock hasher = message id, codec with controlled size, table gas estimator).Add on 1-4 commit '
@@ -26,8 +28,8 @@ SPEC = {
             'merklemulti.VerifyComputeRoot (flag bits decoded from ProofFlagBits) against the committed root and again in Coq. '
             'Cases 0 and 1 are the F14 inputs (too-costly one: repaired by F14a, must report nonce 1 only; size-fallback one: recorded class). mm: merklemulti NewTree/Prove/VerifyComputeRoot over an arithmetic '
             'commutative hash, 1-33 (and 255-300) leaves, index sets all/single/subset/empty/unsorted/duplicate/out-of-range, '
-            'and proofs mutated before verification. sel: execute.selectReport with a scripted builder. '
-            'non-trivial = at least one chain report built (add), non-empty index set (mm), at least one commit report (sel); '
+            'and proofs mutated before verification. sel: execute.selectReport with a scripted builder. out: real execute.Plugin literal in the Filter state: previous outcome = encoded GetMessages outcome with 1-3 source chains, 1-3 pending commit reports per chain (0-8 messages, token data, executed, costly flags), three sender addresses shared by all chains with different on-chain nonces per chain, four attributed observations carrying nonces (unanimous / one Byzantine value / silent oracle / sender seen by one oracle), classes plain, gas-pressure (BatchGasLimit at total, total-1, 3/4, 1/2, first report, 1/4, 50 of an unlimited dry run), size-pressure (codec weight scaled so that the bodies total 0.5-4x the 1 MiB maxReportLength), crossnonce (messages of chain A numbered from the nonce of chain B), byzantine-nonce, tamper-first / tamper-later (commit report not reproducing its root before / after valid ones), costly; BatchGasLimit = 1 MiB in 10% so that equal limits are seen too; Plugin.Outcome decoded, each chain report also re-verified in Go. '
+            'non-trivial = at least one chain report built (add, out), non-empty index set (mm), at least one commit report (sel); '
             'distinct by full input',
     'trusted': ['hashutil keccak HashInternal is an oracle: the model uses the table of the (a,b)->H(a,b) pairs the harness '
                 'computed with the real function (commutative, as HashInternal sorts its arguments); the multiproof theorem '
@@ -53,6 +55,6 @@ SPEC = {
                   'C08_nonce_order_except_known with hypothesis fallback_drop = false). No axioms.',
     'modelled': 'merklemulti NewTree/Prove/VerifyComputeRoot, slicelib BoolsToBitFlags/BitFlagsToBools, ConstructMerkleTree, '
                 'checkMessage/checkMessageNonce, buildSingleChainReportHelper, verifyReport, buildSingleChainReport (greedy '
-                'fallback), builder Add/Build, markNewMessagesExecuted, selectReport; Timestamp/BlockNum of CommitData and '
+                'fallback), builder Add/Build, markNewMessagesExecuted, selectReport, and the Filter branch of Plugin.Outcome as select_report with the arguments the plugin SHOULD pass to report.NewBuilder: nonces = the (source, sender, nonce) triples reported by more than fChain[dest] oracles (mergeNonceObservations), maxReportSizeBytes = maxReportLength = 1 MiB (execute/factory.go), maxGas = offchainCfg.BatchGasLimit, the hasher / codec / estimator, commit reports = PendingCommitReports of the previous outcome in encoded order, result re-sorted as Outcome.Encode does; Timestamp/BlockNum of CommitData and '
                 'message bodies beyond id/seq/nonce/sender/source are not modelled (oracle inputs)',
 }
